@@ -580,6 +580,9 @@ class Model:
                 return {"True": True, "False": False, "None": None}[e.id]
             raise _NoFold
         if isinstance(e, ast.Attribute):
+            txt = unparse(e)
+            if txt in STDLIB_CONSTS:
+                return STDLIB_CONSTS[txt]
             base = e.value
             if isinstance(base, ast.Name):
                 if base.id in ("cls", "self") and cls is not None and base.id not in env:
@@ -751,6 +754,13 @@ class Model:
                 return ("callable", None)
             return head
         return None
+
+
+# documented constants of the standard library that the repo compares against (datetime range)
+STDLIB_CONSTS = {
+    "datetime.datetime.min.year": 1, "datetime.datetime.max.year": 9999, "datetime.date.min.year": 1, "datetime.date.max.year": 9999,
+    "datetime.MINYEAR": 1, "datetime.MAXYEAR": 9999,
+}
 
 
 class _NoFold(Exception):
